@@ -33,3 +33,16 @@ def ser_tie_text():
         t += f"Lemma tie_load_{rec} : @src_load_{rec} = @load_{rec}. Proof. reflexivity. Qed.\n"
     t += "Lemma tie_ser_prints : src_ser_prints = exp_ser_prints. Proof. reflexivity. Qed.\n"
     return t
+
+
+def grad_tie_text():
+    t = """(* Tie (assembled per check): autograd facts read from the current source are the modelled ones. *)
+From Coq Require Import String List.
+From QV Require Import Model.GradFacts.
+From QD Require Import GenGrad.
+Import ListNotations.
+Open Scope string_scope.
+"""
+    for n in ("linear_backward", "ste_backward", "grad_prints"):
+        t += f"Lemma tie_{n} : src_{n} = exp_{n}. Proof. reflexivity. Qed.\n"
+    return t
